@@ -28,7 +28,8 @@ CHECKS = {
     'C05': "Proved (all strings / all token trees): the parser model never takes its out-of-fuel exit (C05_parser_never_out_of_fuel: every token consumes a character, "
            "nesting costs four units of fuel per character), so the model of Glob::new is total; the variance algebra is closed - no unreachable!()/expect site is "
            "reachable, the depth / size / text / exhaustiveness queries and the rule checker can only fail by a checked-arithmetic overflow "
-           "(C05_queries_panic_only_by_overflow), and a build can only panic there or in the regex compiler (C05_build_panic_sites) - exactly the two known classes. "
+           "(C05_queries_panic_only_by_overflow), and a build can only panic there or in the regex compiler (C05_build_panic_sites) - exactly the two known classes; "
+           "partition() of a built glob can only fail by checked overflow (C05_partition_panics_only_by_overflow); combinators of built globs are total. "
            "Model has explicit Panic outcomes and an exact model of the regex nest limit; tie: outcome of every build on a malformed/huge stream vs the model; "
            "oracle: no panic outside the known classes (and only where the model predicts it), compile errors only for large bounds. Partial: stack exhaustion / "
            "memory are outside any Gallina model.",
@@ -40,9 +41,13 @@ CHECKS = {
            "permitted number of times, also in place inside any surrounding concatenation (C07_alternation_composes_in_place, C07_repetition_composes_in_place); "
            "the program of a combinator matches exactly the union of its patterns' programs; alternation of programs is union; grouping mode is "
            "irrelevant to the language. Tie: any() tree/program/is_match. Oracle: substitution / unrolling / wrapping families compared on the implementation.",
-    'C08': "Proved: the display-suffix arithmetic (dropping the popped bytes leaves the suffix on a character boundary). Tie: every observable of partition() vs the model. "
+    'C08': "Proved: partitioning a built glob is total up to checked overflow (C08_partition_is_total_up_to_overflow: the top-level tokens tile the expression, so the "
+           "popped bytes end where a token begins and an unrooted tree wildcard skips one ASCII character; the postfix always re-annotates); the display-suffix "
+           "arithmetic (dropping the popped bytes leaves the suffix on a character boundary). Tie: every observable of partition() vs the model. "
            "Oracle: glob matches p <=> prefix joined with a remainder the postfix matches; postfix unrooted; re-partition identity; rebuild of the displayed postfix.",
-    'C09': "Proved (partial, stated as such): soundness on the class of patterns all of whose expansions end in a tree wildcard. Tie: is_exhaustive() and the negation's "
+    'C09': "Proved (partial, stated as such): soundness on the class of patterns all of whose expansions end in a tree wildcard; and the verdict itself for every flat "
+           "rule-checked pattern not ending in a separator (C09_flat_always_sound: an Always verdict of the model of the pinned code means the last tree wildcard is "
+           "followed by `*` components only - C09_always_means_open_tail - and then everything beneath a matched path is matched). Tie: is_exhaustive() and the negation's "
            "exhaustive/non-exhaustive partition vs the model of the repaired sequencer. Oracle: for every Always verdict, descendants of matched canonical paths are matched.",
     'C10': "Proved (partial, stated as such): for patterns that are a concatenation of leaves without tree wildcards the reported depth is invariant and equals the "
            "component count of every canonical path of the documented language (C10_flat_sound; the general statement is in the file as C10_full). Tie: depth() exact variance vs the model of the whole algebra "
@@ -76,7 +81,9 @@ CHECKS = {
            "negation is a token tree every expansion of which ends in a tree wildcard (class of the conformance theorem, e.g. `**/target/**`), run by any engine that "
            "decides its language, and the negation does not match the empty path, not() yields exactly the entries of the underlying walk that the negation does not "
            "match: the promise of the exhaustive verdict is discharged by the C09 theorem through conformance. For arbitrary programs the statement is proved given "
-           "that promise (C03_not_is_a_filter); per-entry characterisation of the filtrate. Tie: partition programs and item sequences. "
+           "that promise (C03_not_is_a_filter); per-entry characterisation of the filtrate. C03_negation_of_flat_patterns_is_a_filter: for negations every alternative of "
+           "which is a flat rule-checked pattern (`**/target/**`, `*.md`, `src/**/*.tmp`, any() of such) the two partition programs together decide exactly the "
+           "documented language of the pattern and not() is the per-entry filter, with the exhaustiveness promise proved rather than assumed. Tie: partition programs and item sequences. "
            "Oracle: walk.not(p) vs the underlying walk filtered entry by entry with is_match.",
     'C13': "Proved: the combinator stack machine (walkdir stack + layers with residue transitions) refines the pruned pre-order specification for all trees and stacks. "
            "Tie: full feed sequences observed by a pass-through filter_entry. Oracle: nothing beneath a discarded directory is fed downstream; no sibling is lost.",
